@@ -100,13 +100,19 @@ static void *v_calloc(size_t n, size_t sz) { V_ASSERT(n == 1 && sz == sizeof(r_b
 
 /* PAT: one letter per step = the set of operations the solver may choose from at that step (the schedule skeleton is
  * shape, everything else symbolic; every letter also allows "no operation", so a pattern covers all its subsequences):
- *   w writer (wbuf_set or wbuf_set2)   g data_get+rpos_inc   a avail+full read   i rpos_init   r any reader op   x any */
+ *   w writer (wbuf_set or wbuf_set2)   v writer or rpos_init   g data_get+rpos_inc   a avail+full read   i rpos_init   r any reader op   x any */
 static const char v_pat[] = PAT;
 #define NSTEPS (sizeof(PAT) - 1)
 static inline unsigned v_mask(char c) {
-	return (c == 'w' ? 0x23u : c == 'g' ? 0x24u : c == 'a' ? 0x28u : c == 'i' ? 0x30u : c == 'r' ? 0x3cu : 0x3fu);
+	return (c == 'w' ? 0x23u : c == 'v' ? 0x33u : c == 'g' ? 0x24u : c == 'a' ? 0x28u : c == 'i' ? 0x30u :
+	    c == 'r' ? 0x3cu : 0x3fu);
 }
 #define HAS(m, o) (((m) >> (o)) & 1u)
+#ifdef REPLAY	/* narrate the history when a counterexample is replayed */
+#define LOG(...) do { printf(__VA_ARGS__); fflush(stdout); } while (0)
+#else
+#define LOG(...) do { } while (0)
+#endif
 
 struct step_s { uint8_t op, r, a, b, c, f; };
 struct in_s { struct step_s st[NSTEPS]; };
@@ -163,6 +169,8 @@ static void writer_step(struct step_s s, unsigned m, size_t r) {
 	uint8_t *p = NULL;
 	size_t round_before = rb->round_num;
 	size_t n = r_buf_wbuf_get(rb, s.a, &p);
+	LOG("W%d wbuf_get(min=%u) -> %zu at off %ld  [round %zu idx %zu max %zu wpos %zu flags %u]\n", s.op, s.a, n,
+	    p ? (long)(p - rb->buf) : -1L, rb->round_num, rb->iov_index, rb->iov_index_max, rb->wpos, rb->flags);
 	if (s.a > SIZE) {
 		V_ASSERT(n == 0, "WRITER request larger than the ring is refused");
 		return;
@@ -177,6 +185,7 @@ static void writer_step(struct step_s s, unsigned m, size_t r) {
 		size_t off = s.b, bs = s.c;
 		V_ASSUME(bs <= n);	/* the caller cannot have filled more than it was given */
 		int e = r_buf_wbuf_set(rb, off, bs);
+		LOG("   wbuf_set(off=%zu, size=%zu) -> %d  seq %d..  [idx %zu max %zu wpos %zu]\n", off, bs, e, wseq, rb->iov_index, rb->iov_index_max, rb->wpos);
 		if (off >= bs || bs - off < MBS) {
 			V_ASSERT(e == EINVAL, "WRITER empty / too small commit is refused");
 			return;
@@ -191,6 +200,7 @@ static void writer_step(struct step_s s, unsigned m, size_t r) {
 		r_buf_rpos_p rpp = NULL;
 		if (s.f & 1) rpp = (NR == 1 || r == 0) ? &rp[0] : &rp[NR - 1];
 		int e = r_buf_wbuf_set2(rb, p + off, ds, rpp);
+		LOG("   wbuf_set2(buf+%zu, size=%zu, rpos=%s) -> %d  seq %d..  [idx %zu max %zu wpos %zu]\n", off, ds, rpp ? "reader" : "NULL", e, wseq, rb->iov_index, rb->iov_index_max, rb->wpos);
 		if (ds < MBS) {
 			V_ASSERT(e == EINVAL, "WRITER too small commit is refused");
 			return;
@@ -208,7 +218,12 @@ static void reader_step(struct step_s s, unsigned m, const size_t r) {
 	if (HAS(m, OP_RGET) && s.op == OP_RGET) {
 		iovec_t iov[IOVN];
 		size_t drop = 0, dsz = 12345;
+		LOG("R%zu data_get(size=%u) rpos before {idx %zu off %zu round %zu} expecting seq %d (synced %d)\n", r, s.a, rp[r].iov_index, rp[r].iov_off, rp[r].round_num, expq[r], synced[r]);
 		size_t cnt = r_buf_data_get(rb, &rp[r], s.a, iov, IOVN, &drop, &dsz);
+		LOG("   -> %zu regions, data_size_ret %zu, drop %zu; rpos {idx %zu off %zu round %zu}\n", cnt, dsz, drop, rp[r].iov_index, rp[r].iov_off, rp[r].round_num);
+		for (size_t k = 0; k < cnt && k < IOVN; k++) LOG("   region %zu: off %ld len %zu\n", k, (long)(iov[k].iov_base - rb->buf), iov[k].iov_len);
+		for (size_t k = 0; k < SIZE; k++) LOG(" %d", sh[k]);
+		LOG("  <- seq per ring byte\n");
 		size_t total = check_regions(r, iov, cnt);
 		if (cnt > 0) {
 			V_ASSERT(drop == 0, "DROP no drop is reported together with data");
@@ -220,6 +235,7 @@ static void reader_step(struct step_s s, unsigned m, const size_t r) {
 		size_t inc = s.b;
 		V_ASSUME(inc <= total);
 		r_buf_rpos_inc(rb, &rp[r], inc);
+		LOG("   rpos_inc(%zu) -> {idx %zu off %zu round %zu}\n", inc, rp[r].iov_index, rp[r].iov_off, rp[r].round_num);
 		V_ASSERT(!v_trap_hit, "INC consuming not more than was handed out never reaches the 'BUG' branch of rpos_inc");
 		expq[r] += (int32_t)inc;
 	} else if (HAS(m, OP_RAVAIL) && s.op == OP_RAVAIL) {
@@ -228,9 +244,15 @@ static void reader_step(struct step_s s, unsigned m, const size_t r) {
 #ifdef KF_AVAIL_FRESH	/* finding avail_fresh: iov[0].iov_base is NULL until the first wbuf_get; avail computes wpos - (NULL - buf) */
 		V_ASSUME(wgets > 0);
 #endif
+		LOG("R%zu avail: rpos before {idx %zu off %zu round %zu} expecting seq %d (synced %d)\n", r, rp[r].iov_index, rp[r].iov_off, rp[r].round_num, expq[r], synced[r]);
 		size_t av = r_buf_data_avail_size(rb, &rp[r], &drop);
+		LOG("   -> avail %zu drop %zu; rpos {idx %zu off %zu round %zu}\n", av, drop, rp[r].iov_index, rp[r].iov_off, rp[r].round_num);
 		note_drop(r, drop);
 		size_t cnt = r_buf_data_get(rb, &rp[r], (size_t)SIZE + 1, iov, IOVN, &drop2, &dsz);
+		LOG("   full read -> %zu regions, data_size_ret %zu, drop %zu\n", cnt, dsz, drop2);
+		for (size_t k = 0; k < cnt && k < IOVN; k++) LOG("   region %zu: off %ld len %zu\n", k, (long)(iov[k].iov_base - rb->buf), iov[k].iov_len);
+		for (size_t k = 0; k < SIZE; k++) LOG(" %d", sh[k]);
+		LOG("  <- seq per ring byte\n");
 		size_t total = check_regions(r, iov, cnt);
 		V_ASSERT(cnt < IOVN, "HARNESS full read is not truncated by the region array");
 		V_ASSERT(av == total, "AVAIL data_avail_size equals the bytes a full read returns");
@@ -239,6 +261,7 @@ static void reader_step(struct step_s s, unsigned m, const size_t r) {
 		if (total) got++;
 	} else if (HAS(m, OP_RINIT) && s.op == OP_RINIT) {
 		V_ASSERT(r_buf_rpos_init(rb, &rp[r], s.a) == 0, "rpos_init succeeds");
+		LOG("R%zu rpos_init(%u) -> {idx %zu off %zu round %zu}\n", r, s.a, rp[r].iov_index, rp[r].iov_off, rp[r].round_num);
 		synced[r] = 0; expq[r] = 0; told[r] = 0;
 	}
 }
@@ -271,7 +294,6 @@ void harness(void) {
 	if (wrapped >= 1) V_WITNESS("history with a wrap of the ring");
 	if (wrapped >= 2) V_WITNESS("history with two wraps");
 	if (dropped) V_WITNESS("history with a reported drop");
-	if (got) V_WITNESS("history in which a reader received data");
 	if (got && wrapped) V_WITNESS("reader received data in a history with a wrap");
 #if ROUND0 != 0
 	if (rb->round_num < (size_t)(ROUND0)) V_WITNESS("round counter wrapped through SIZE_MAX");
